@@ -1,0 +1,17 @@
+//go:build verif
+
+package lexeme
+
+// Contracts for govc (see /verif/DESIGN.md). Comment-only file.
+
+//@ func (LexEventType).IsOpening()
+//@   props C01 C06
+//@   pure
+//@   ensures result == isOpeningEvent(e)
+
+// C17: a validation error is positioned at the start of the offending lexeme
+//@ func NewLexEventError(lex, err)
+//@   props C07 C17
+//@   requires errWF(err)
+//@   nopanic
+//@   ensures result.index == lex.begin && result.hasIndex && result.file == lex.file && result.code == errCodeOf(err) && !result.prepared
